@@ -166,13 +166,15 @@ def check(run):
             vf = wrap(rnd, core, rnd.randint(0, 2), injective=True)
             d = {P + 'A1': '=' + vf, P + 'C1': 5, P + 'C2': 7,
                  P + 'B1': '=%sA1*2' % P, P + 'B2': '=%sA1+%sA1' % (P, P), P + 'B3': '=SUM(%sA1,%sC1)' % (P, P),
-                 P + 'B4': '=IF(%sC1>0,%sA1,0)+%sB1' % (P, P, P), P + 'D1': '=%sC1*%sC2' % (P, P)}
+                 P + 'B4': '=IF(%sC1>0,%sA1,0)+%sB1' % (P, P, P), P + 'D1': '=%sC1*%sC2' % (P, P),
+                 # dependents that mix the volatile cell with a stored constant, directly and through a range
+                 P + 'A2': 3, P + 'B5': '=%sA1+%sC2' % (P, P), P + 'B6': '=SUM(%sA1:A2)' % P}
             case = {'workbook': d}
 
             def consistent(v, what):
                 a1 = v['A1']
                 ok = (abs(v['B1'] - 2 * a1) < 1e-9 and abs(v['B2'] - 2 * a1) < 1e-9 and abs(v['B3'] - (a1 + v.get('C1', 5))) < 1e-9
-                      and abs(v['B4'] - 3 * a1) < 1e-9)
+                      and abs(v['B4'] - 3 * a1) < 1e-9 and abs(v['B5'] - (a1 + 7)) < 1e-9 and abs(v['B6'] - (a1 + 3)) < 1e-9)
                 if not ok:
                     run.violation('%s: dependents of the volatile cell do not see one single value: %r' % (what, v), dict(case, via=what))
 
@@ -201,11 +203,11 @@ def check(run):
                 ways['dill'] = lambda md=md: vals_of(md.calculate())
                 mj = ExcelModel().from_dict(json.loads(json.dumps(m.to_dict())))
                 ways['json'] = lambda mj=mj: vals_of(mj.calculate())
-                outs = [P + 'A1', P + 'B1', P + 'B2', P + 'B3', P + 'B4']
+                outs = [P + 'A1', P + 'B1', P + 'B2', P + 'B3', P + 'B4', P + 'B5', P + 'B6']
                 fc = m.compile(inputs=[P + 'C1'], outputs=outs)
-                ways['compile'] = lambda fc=fc: dict(zip(['A1', 'B1', 'B2', 'B3', 'B4'], [float(sc(x)) for x in fc(5)]), C1=5)
+                ways['compile'] = lambda fc=fc: dict(zip(['A1', 'B1', 'B2', 'B3', 'B4', 'B5', 'B6'], [float(sc(x)) for x in fc(5)]), C1=5)
                 fc2 = dill.loads(dill.dumps(fc))
-                ways['compile+dill'] = lambda fc2=fc2: dict(zip(['A1', 'B1', 'B2', 'B3', 'B4'], [float(sc(x)) for x in fc2(5)]), C1=5)
+                ways['compile+dill'] = lambda fc2=fc2: dict(zip(['A1', 'B1', 'B2', 'B3', 'B4', 'B5', 'B6'], [float(sc(x)) for x in fc2(5)]), C1=5)
             except Exception as ex:
                 run.violation('obtaining a model raised %s: %s' % (type(ex).__name__, str(ex)[:100]), case)
             for way, call in ways.items():
